@@ -19,7 +19,7 @@ Proof. intros K delays v w k H. unfold cut_delays. destruct (Nat.ltb_spec k K); 
 Section Fin.
 Variable g : graph.
 Hypothesis Hnd : NoDup (gnodes g).
-Hypothesis Hadj : forall u v, In v (gadj g u) -> In v (gnodes g).
+Hypothesis Hadj : forall u v, In u (gnodes g) -> In v (gadj g u) -> In v (gnodes g).
 Variable dur : node -> nat -> Q.
 Variable delays : node -> node -> nat -> list Q.
 Variable tmax : xtime.
@@ -45,13 +45,13 @@ Proof.
   intros P x l Hx Hl. eapply Permutation_Forall; [apply Permutation_sym; apply ains_perm|]. constructor; assumption.
 Qed.
 
-Lemma RP_infect : forall t src v s, RP s -> RP (r_infect g dur delays tmax t src v s).
+Lemma RP_infect : forall t src v s, In v (gnodes g) -> RP s -> RP (r_infect g dur delays tmax t src v s).
 Proof.
-  intros t src v s Hp. unfold RP.
+  intros t src v s Hv Hp. unfold RP.
   destruct (r_infect_ind g dur delays tmax K (Forall tgt_ok) t src v s) as [A _]; [| |intros ag w d Hi Hw _ _|exact A].
   - intros _. apply ains_forall; [exact I|exact Hp].
   - intros _. exact Hp.
-  - apply ains_forall; [|exact Hi]. unfold tgt_ok. cbn [snd]. apply (Hadj v). exact Hw.
+  - apply ains_forall; [|exact Hi]. unfold tgt_ok. cbn [snd]. apply (Hadj v); [exact Hv|exact Hw].
 Qed.
 
 Lemma RP_step : forall s t a rest, RP s -> r_ag s = (t, a) :: rest ->
@@ -60,7 +60,7 @@ Lemma RP_step : forall s t a rest, RP s -> r_ag s = (t, a) :: rest ->
 Proof.
   intros s t a rest Hp Ea. unfold RP in Hp. rewrite Ea in Hp. inversion Hp as [|? ? Hh Hr]; subst. split.
   - destruct a as [v|u v]; cbn [r_event]; [exact Hr|].
-    destruct (N.eqb (r_stat (rpop s rest) v) stS); [apply RP_infect|]; exact Hr.
+    destruct (N.eqb (r_stat (rpop s rest) v) stS); [apply RP_infect; [exact Hh|]|]; exact Hr.
   - intros u v -> _. apply safe_fin. exact Hh.
 Qed.
 
@@ -70,7 +70,7 @@ Proof.
   intros tmin full i0 Hinc. unfold ref_sis. rewrite r_init_eq.
   destruct (r_init_total g dur delays tmax K Hnd RP tmin i0 (r_empty g tmin)) as [Hp Hm].
   - intros s u Hs Hu. split; [|intros _; apply safe_fin; apply Hinc; exact Hu].
-    unfold r_init_step. destruct (N.eqb (r_stat s u) stS); [apply RP_infect; exact Hs|exact Hs].
+    unfold r_init_step. destruct (N.eqb (r_stat s u) stS); [apply RP_infect; [apply Hinc; exact Hu|exact Hs]|exact Hs].
   - constructor.
   - destruct (r_loop_total g dur delays tmax K Hnd RP RP_step (ref_fuel g delays K i0) _ Hp) as [s' [E _]].
     + unfold ref_fuel. unfold rM in Hm at 2. cbn [r_empty r_ag r_ord] in Hm. unfold agw in Hm. cbn [map] in Hm. rewrite ls_nil in Hm. lia.
@@ -88,13 +88,13 @@ Proof.
 Qed.
 Lemma NP_chain : forall q src v tt, Forall ntgt_ok (q_items q) -> In v (gnodes g) -> Forall ntgt_ok (q_items (chain tmax q src v tt)).
 Proof. intros q src v [|h tl] Hq Hv; cbn [chain]; [exact Hq|]. apply NP_add; assumption. Qed.
-Lemma NP_sched_fold : forall time u k stat rec ws q, incl ws (gadj g u) -> Forall ntgt_ok (q_items q) ->
+Lemma NP_sched_fold : forall time u k stat rec ws q, In u (gnodes g) -> incl ws (gadj g u) -> Forall ntgt_ok (q_items q) ->
   Forall ntgt_ok (q_items (fold_left (n_sched delays tmax time u k stat rec) ws q)).
 Proof.
-  intros time u k stat rec ws. induction ws as [|w ws IH]; intros q Hinc Hq; cbn [fold_left]; [exact Hq|].
-  apply IH; [intros x Hx; apply Hinc; right; exact Hx|].
+  intros time u k stat rec ws. induction ws as [|w ws IH]; intros q Hu Hinc Hq; cbn [fold_left]; [exact Hq|].
+  apply IH; [exact Hu|intros x Hx; apply Hinc; right; exact Hx|].
   unfold n_sched. destruct (delays u w k) as [|d dl]; [exact Hq|].
-  apply NP_chain; [exact Hq|]. apply (Hadj u). apply Hinc. left. reflexivity.
+  apply NP_chain; [exact Hq|]. apply (Hadj u); [exact Hu|]. apply Hinc. left. reflexivity.
 Qed.
 
 Lemma NP_step : forall s t c e rest, NP s -> q_items (ns_q s) = (t, c, e) :: rest ->
@@ -105,7 +105,7 @@ Proof.
   - destruct e as [v|src v fut]; cbn [n_event]; [exact Hr|].
     unfold NP, n_trans. cbn [npop ns_stat ns_rec ns_ord ns_q ns_log].
     destruct (N.eqb (ns_stat s v) stS); cbn [ns_q]; apply NP_chain; try exact Hh; [|exact Hr].
-    apply NP_sched_fold; [apply incl_refl|].
+    apply NP_sched_fold; [exact Hh|apply incl_refl|].
     destruct (xlt (tadd t (dur v (ns_ord s v))) tmax); [apply NP_add; [exact Hr|exact I]|exact Hr].
   - intros src v fut -> _. apply safe_fin. exact Hh.
 Qed.
